@@ -125,4 +125,386 @@ theorem allocLoop_effect (si size : Nat) (rec : Bytes) (shs : List Nat) (s : Ser
                   simpa [s1, getK, hk] using a
           · exact weaken (ih s rem)
 
+
+/-! ### per-operation effects -/
+
+theorem wfInc_deadline (w : Writer) (f : File) (d : Nat) (h : WFInc w f) :
+    WFInc { w with deadline := d } f := ⟨h.len, h.nl, h.ver, h.bound, h.zero⟩
+
+theorem final_none_of_inc (s : Server) (h : WF s) (k : Key) (x) (hi : getK k s.incoming = some x) :
+    getK k s.final = none := by
+  cases hf : getK k s.final with
+  | none => rfl
+  | some f => have := h.disj k (by simp [hf]); simp_all
+
+theorem shareLength_of_wfInc (w : Writer) (f : File) (h : WFInc w f) : shareLength f = w.maxSize := by
+  simp only [shareLength, h.len, h.nl]; omega
+
+theorem shareData_of_wfInc (w : Writer) (f : File) (h : WFInc w f) :
+    pread f 12 (shareLength f) = specData (cellsOf w f) := by
+  rw [shareLength_of_wfInc w f h]
+  apply List.ext_getElem?; intro i
+  simp only [getElem?_pread, specData, cellsOf, List.getElem?_map, List.map_map]
+  by_cases hi : i < w.maxSize
+  · have hlt : 12 + i < f.length := by rw [h.len]; omega
+    have hb : f[12 + i]? = some f[12 + i] := by simp [hlt]
+    simp only [hi, if_true, List.getElem?_range hi, Option.map_some, Function.comp]
+    by_cases hm : rmMem w.written i = true
+    · simp [hm, hb]
+    · have hz := h.zero i hi (by simpa using hm)
+      simp [hm, hz]
+  · simp [hi]
+
+theorem wfFin_of_wfInc (w : Writer) (f : File) (h : WFInc w f) : WFFin f :=
+  ⟨h.ver, by rw [h.nl, h.len]; omega⟩
+
+def allocSum (l : List (Key × (Writer × File))) : Nat := (l.map (fun e => e.2.1.maxSize)).sum
+
+theorem allocSum_eraseK (l : List (Key × (Writer × File))) (hn : (l.map (·.1)).Nodup) (k : Key)
+    (w : Writer) (f : File) (hg : getK k l = some (w, f)) :
+    allocSum (eraseK k l) + w.maxSize = allocSum l := by
+  induction l with
+  | nil => simp [getK] at hg
+  | cons e rest ih =>
+    obtain ⟨ke, we, fe⟩ := e
+    simp only [List.map_cons, List.nodup_cons] at hn
+    simp only [getK] at hg
+    by_cases hk : ke = k
+    · subst hk
+      simp only [if_true, Option.some.injEq, Prod.mk.injEq] at hg
+      obtain ⟨rfl, rfl⟩ := hg
+      have : eraseK ke rest = rest := by
+        simp only [eraseK]
+        apply List.filter_eq_self.mpr
+        intro a ha; simp only [ne_eq, decide_eq_true_eq]
+        intro heq; apply hn.1; rw [← heq]; exact List.mem_map_of_mem ha
+      have e2 : eraseK ke ((ke, we, fe) :: rest) = eraseK ke rest := by simp [eraseK]
+      rw [e2, this]; simp [allocSum]; omega
+    · simp only [hk, if_false] at hg
+      have := ih hn.2 hg
+      simp only [eraseK, allocSum, List.filter_cons, ne_eq, hk, not_false_eq_true, decide_true, if_true,
+        List.map_cons, List.sum_cons] at this ⊢
+      omega
+
+theorem writeOp_effect (s : Server) (h : WF s) (wid off : Nat) (data : Bytes) (k : Key) (w : Writer)
+    (f : File) (hf : findWid wid s.incoming = some (k, (w, f))) :
+    WF (writeOp s wid off data).1 ∧ (writeOp s wid off data).1.final = s.final ∧
+    absShare s k = .inProgress w.maxSize (cellsOf w f) ∧
+    (∀ k', absShare (writeOp s wid off data).1 k' =
+        if k' = k then specWriteShare (absShare s k) off data else absShare s k') ∧
+    toSpecRes (writeOp s wid off data).2 = (specWrite w.maxSize (cellsOf w f) off data).2 ∧
+    allocatedSize (writeOp s wid off data).1 = allocatedSize s := by
+  have hg : getK k s.incoming = some (w, f) := findWid_getK wid _ h.incKeys _ hf
+  have hfin := final_none_of_inc s h k _ hg
+  have hw := wfInc_deadline w f (s.now + 30 * 60) (h.inc k w f hg)
+  have sp := bwWrite_spec { w with deadline := s.now + 30 * 60 } f off data hw
+  simp only at sp
+  obtain ⟨sp1, sp2, sp3, _, sp5⟩ := sp
+  have habs : absShare s k = .inProgress w.maxSize (cellsOf w f) := by
+    simp only [absShare, hfin, hg]
+  simp only [writeOp, hf]
+  refine ⟨⟨nodup_setK _ _ _ h.incKeys, ?_, h.fin, ?_⟩, trivial, habs, ?_, sp2, ?_⟩
+  · intro k2 w2 f2 h2
+    rw [getK_setK] at h2
+    split at h2
+    · simp only [Option.some.injEq, Prod.mk.injEq] at h2
+      obtain ⟨rfl, rfl⟩ := h2; exact sp5
+    · exact h.inc k2 w2 f2 h2
+  · intro k2 h2
+    simp only [getK_setK]
+    split
+    · rename_i hk; subst hk; simp [hfin] at h2
+    · exact h.disj k2 h2
+  · intro k'
+    simp only [absShare, getK_setK]
+    by_cases hk : k' = k
+    · subst hk
+      simp only [hfin, if_true, hg, specWriteShare]
+      rw [sp1, sp3]; rfl
+    · have hk' : ¬ (k = k') := fun e => hk e.symm
+      simp only [hk, hk', if_false]
+  · have e := allocSum_eraseK s.incoming h.incKeys k w f hg
+    simp only [allocatedSize, setK, List.map_cons, List.sum_cons, allocSum] at e ⊢
+    rw [sp3]; omega
+
+theorem closeOp_effect (s : Server) (h : WF s) (wid : Nat) (k : Key) (w : Writer)
+    (f : File) (hf : findWid wid s.incoming = some (k, (w, f))) :
+    WF (closeOp s wid).1 ∧ (closeOp s wid).2 = true ∧
+    absShare s k = .inProgress w.maxSize (cellsOf w f) ∧
+    (∀ k', absShare (closeOp s wid).1 k' = if k' = k then specClose (absShare s k) else absShare s k') ∧
+    (∀ k', getK k' (closeOp s wid).1.final = if k = k' then some f else getK k' s.final) ∧
+    allocatedSize (closeOp s wid).1 + w.maxSize = allocatedSize s := by
+  have hg : getK k s.incoming = some (w, f) := findWid_getK wid _ h.incKeys _ hf
+  have hfin := final_none_of_inc s h k _ hg
+  have hw := h.inc k w f hg
+  have habs : absShare s k = .inProgress w.maxSize (cellsOf w f) := by
+    simp only [absShare, hfin, hg]
+  simp only [closeOp, hf]
+  refine ⟨⟨nodup_eraseK _ _ h.incKeys, ?_, ?_, ?_⟩, trivial, habs, ?_, fun k' => getK_setK _ _ _ _, ?_⟩
+  · intro k2 w2 f2 h2
+    rw [getK_eraseK] at h2
+    split at h2
+    · simp at h2
+    · exact h.inc k2 w2 f2 h2
+  · intro k2 f2 h2
+    rw [getK_setK] at h2
+    split at h2
+    · simp only [Option.some.injEq] at h2; subst h2; exact wfFin_of_wfInc w f hw
+    · exact h.fin k2 f2 h2
+  · intro k2 h2
+    simp only [getK_setK, getK_eraseK] at h2 ⊢
+    split
+    · rfl
+    · rename_i hk; simp only [hk, if_false] at h2; exact h.disj k2 h2
+  · intro k'
+    simp only [absShare, getK_setK, getK_eraseK]
+    by_cases hk : k' = k
+    · subst hk
+      simp only [if_true, hfin, hg, specClose]
+      rw [shareData_of_wfInc w f hw]
+    · have hk' : ¬ (k = k') := fun e => hk e.symm
+      simp only [hk, hk', if_false]
+  · exact allocSum_eraseK s.incoming h.incKeys k w f hg
+
+theorem abortOp_effect (s : Server) (h : WF s) (wid : Nat) (k : Key) (w : Writer)
+    (f : File) (hf : findWid wid s.incoming = some (k, (w, f))) :
+    WF (abortOp s wid) ∧ (abortOp s wid).final = s.final ∧
+    getK k (abortOp s wid).incoming = none ∧
+    (∀ k', absShare (abortOp s wid) k' = if k' = k then .absent else absShare s k') ∧
+    allocatedSize (abortOp s wid) + w.maxSize = allocatedSize s := by
+  have hg : getK k s.incoming = some (w, f) := findWid_getK wid _ h.incKeys _ hf
+  have hfin := final_none_of_inc s h k _ hg
+  simp only [abortOp, hf]
+  refine ⟨⟨nodup_eraseK _ _ h.incKeys, ?_, h.fin, ?_⟩, trivial, by simp [getK_eraseK], ?_, ?_⟩
+  · intro k2 w2 f2 h2
+    rw [getK_eraseK] at h2
+    split at h2
+    · simp at h2
+    · exact h.inc k2 w2 f2 h2
+  · intro k2 h2
+    simp only [getK_eraseK]
+    split
+    · rfl
+    · exact h.disj k2 h2
+  · intro k'
+    simp only [absShare, getK_eraseK]
+    by_cases hk : k' = k
+    · subst hk; simp only [if_true, hfin]
+    · have hk' : ¬ (k = k') := fun e => hk e.symm
+      simp only [hk, hk', if_false]
+  · exact allocSum_eraseK s.incoming h.incKeys k w f hg
+
+
+theorem getK_filter {α : Type} (p : Key × α → Bool) (l : List (Key × α)) (hn : (l.map (·.1)).Nodup)
+    (k : Key) :
+    getK k (l.filter p) = match getK k l with
+      | some v => if p (k, v) then some v else none
+      | none => none := by
+  induction l with
+  | nil => simp [getK]
+  | cons e rest ih =>
+    obtain ⟨ke, v⟩ := e
+    simp only [List.map_cons, List.nodup_cons] at hn
+    have ih := ih hn.2
+    by_cases hk : ke = k
+    · subst hk
+      have hnone : getK ke rest = none := (getK_none_iff _ _).mpr hn.1
+      simp only [List.filter_cons, getK, if_true]
+      by_cases hp : p (ke, v) = true
+      · simp [hp, getK]
+      · simp only [hp, Bool.false_eq_true, if_false]
+        rw [ih, hnone]
+    · simp only [List.filter_cons, getK, hk, if_false]
+      split
+      · simp only [getK, hk, if_false]; exact ih
+      · exact ih
+
+theorem advanceOp_effect (s : Server) (h : WF s) (dt : Nat) :
+    WF (advanceOp s dt) ∧ (advanceOp s dt).final = s.final ∧
+    (∀ k w f, getK k (advanceOp s dt).incoming = some (w, f) →
+        getK k s.incoming = some (w, f) ∧ s.now + dt < w.deadline) ∧
+    (∀ k w f, getK k s.incoming = some (w, f) → w.deadline ≤ s.now + dt →
+        getK k (advanceOp s dt).incoming = none) ∧
+    (∀ k, absShare (advanceOp s dt) k = absShare s k ∨
+        (∃ size cells, absShare s k = .inProgress size cells ∧ absShare (advanceOp s dt) k = .absent)) := by
+  have gf := fun k => getK_filter (fun e : Key × (Writer × File) => decide (s.now + dt < e.2.1.deadline))
+    s.incoming h.incKeys k
+  have sub : ∀ k w f, getK k (advanceOp s dt).incoming = some (w, f) →
+      getK k s.incoming = some (w, f) ∧ s.now + dt < w.deadline := by
+    intro k w f hk
+    simp only [advanceOp] at hk
+    rw [gf k] at hk
+    split at hk
+    · rename_i v hv
+      split at hk
+      · rename_i hp
+        simp only [Option.some.injEq] at hk; subst hk
+        exact ⟨hv, by simpa using hp⟩
+      · simp at hk
+    · simp at hk
+  refine ⟨⟨?_, ?_, h.fin, ?_⟩, rfl, sub, ?_, ?_⟩
+  · exact h.incKeys.sublist ((List.filter_sublist).map _)
+  · intro k w f hk; exact h.inc k w f (sub k w f hk).1
+  · intro k hk
+    have := h.disj k hk
+    simp only [advanceOp]; rw [gf k, this]
+  · intro k w f hk hd
+    simp only [advanceOp]; rw [gf k, hk]
+    have : ¬ (s.now + dt < w.deadline) := by omega
+    simp [this]
+  · intro k
+    simp only [absShare, advanceOp]
+    cases hfin : getK k s.final with
+    | some f => left; rfl
+    | none =>
+      simp only
+      rw [gf k]
+      cases hinc : getK k s.incoming with
+      | none => left; rfl
+      | some v =>
+        obtain ⟨w, f⟩ := v
+        simp only
+        by_cases hp : s.now + dt < w.deadline
+        · left; simp [hp]
+        · right; simp [hp]
+
+/-- effect of `allocate_buckets` on the abstraction -/
+theorem allocate_effect (s : Server) (h : WF s) (si : Nat) (shs : List Nat) (size : Nat) (rec : Bytes)
+    (hr : rec.length = 72) (free : Nat) (order : List Nat) :
+    WF (allocate s si shs size rec free order).1 ∧
+    (∀ k, visible (allocate s si shs size rec free order).1 k = visible s k) ∧
+    (∀ k, absShare (allocate s si shs size rec free order).1 k = absShare s k ∨
+      (k.1 = si ∧ k.2 ∈ shs ∧ absShare s k = .absent ∧
+        absShare (allocate s si shs size rec free order).1 k =
+          .inProgress size (List.replicate size none))) := by
+  have R := leaseLoop_rel (availableSpace s free) rec hr si order s.final h.fin
+  generalize hll : leaseLoop (availableSpace s free) rec si s.final order = ll at R
+  obtain ⟨fin', err⟩ := ll
+  simp only at R
+  -- the server after the lease loop
+  have wf0 : WF { s with final := fin' } :=
+    ⟨h.incKeys, h.inc, fun k f hk => wfFin_of_rel R k f hk,
+     fun k hk => h.disj k (by rw [← isSome_of_rel R k]; exact hk)⟩
+  have abs0 : ∀ k, absShare { s with final := fin' } k = absShare s k := by
+    intro k
+    have := R k
+    simp only [absShare]
+    cases hg : getK k s.final <;> cases hg' : getK k fin' <;> simp_all [FinRel]
+    exact this.2.1
+  have vis0 : ∀ k, visible { s with final := fin' } k = visible s k := fun k => isSome_of_rel R k
+  simp only [allocate, allocateWith, hll]
+  cases err with
+  | some e => exact ⟨wf0, vis0, fun k => Or.inl (abs0 k)⟩
+  | none =>
+    simp only
+    have e := allocLoop_effect si size rec shs { s with final := fin' }
+      ((availableSpace s free : Int) - (allocatedSize s : Int))
+    generalize (allocLoop si size rec { s with final := fin' }
+      ((availableSpace s free : Int) - (allocatedSize s : Int)) shs).1 = s' at e
+    have hfin : s'.final = fin' := e.final
+    refine ⟨⟨e.keys h.incKeys, ?_, ?_, ?_⟩, ?_, ?_⟩
+    · intro k w f hk
+      rcases e.entry k with h1 | ⟨_, _, _, _, w', hw', hm, hwr⟩
+      · rw [h1] at hk; exact h.inc k w f hk
+      · rw [hw'] at hk
+        simp only [Option.some.injEq, Prod.mk.injEq] at hk
+        obtain ⟨rfl, rfl⟩ := hk
+        exact wfInc_fresh w' size rec hr hm hwr
+    · intro k f hk; rw [hfin] at hk; exact wf0.fin k f hk
+    · intro k hk
+      rw [hfin] at hk
+      rcases e.entry k with h1 | ⟨_, hnf, _⟩
+      · rw [h1]; exact wf0.disj k hk
+      · simp only at hnf; rw [hnf] at hk; simp at hk
+    · intro k; simp only [visible, hfin]; exact vis0 k
+    · intro k
+      rcases e.entry k with h1 | ⟨hni, hnf, hsi, hsh, w', hw', hm, hwr⟩
+      · left
+        rw [← abs0 k]
+        simp only [absShare, hfin, h1]
+      · right
+        refine ⟨hsi, hsh, ?_, ?_⟩
+        · rw [← abs0 k]; simp only [absShare] at *; simp only [hnf, hni]
+        · simp only at hnf
+          simp only [absShare, hfin, hnf, hw', hm]
+          rw [cellsOf_fresh w' size rec hm hwr]
+
+
+theorem findWid_none_effects (s : Server) (wid : Nat) (h : findWid wid s.incoming = none) (off : Nat)
+    (data : Bytes) :
+    writeOp s wid off data = (s, .closed) ∧ closeOp s wid = (s, false) ∧ abortOp s wid = s := by
+  simp [writeOp, closeOp, abortOp, h]
+
+theorem wf_empty (ro : Bool) (rs : Nat) : WF (Server.empty ro rs) :=
+  ⟨by simp [Server.empty], by simp [Server.empty, getK], by simp [Server.empty, getK],
+   by simp [Server.empty, getK]⟩
+
+/-- one step preserves the invariant and refines the specification -/
+theorem step_refines (s : Server) (h : WF s) (op : Op) (ok : OpOk op) :
+    WF (step s op) ∧ SpecStep s (absShare s) op (absShare (step s op)) := by
+  cases op with
+  | alloc si shs size rec free order =>
+    have e := allocate_effect s h si shs size rec ok free order
+    exact ⟨e.1, e.2.2⟩
+  | write wid off data =>
+    simp only [step, SpecStep]
+    cases hf : findWid wid s.incoming with
+    | none => rw [(findWid_none_effects s wid hf off data).1]; exact ⟨h, fun _ => rfl⟩
+    | some e =>
+      obtain ⟨k, w, f⟩ := e
+      have := writeOp_effect s h wid off data k w f hf
+      exact ⟨this.1, this.2.2.2.1⟩
+  | close wid =>
+    simp only [step, SpecStep]
+    cases hf : findWid wid s.incoming with
+    | none => rw [(findWid_none_effects s wid hf 0 []).2.1]; exact ⟨h, fun _ => rfl⟩
+    | some e =>
+      obtain ⟨k, w, f⟩ := e
+      have := closeOp_effect s h wid k w f hf
+      exact ⟨this.1, this.2.2.2.1⟩
+  | abort wid =>
+    simp only [step, SpecStep]
+    cases hf : findWid wid s.incoming with
+    | none => rw [(findWid_none_effects s wid hf 0 []).2.2]; exact ⟨h, fun _ => rfl⟩
+    | some e =>
+      obtain ⟨k, w, f⟩ := e
+      have := abortOp_effect s h wid k w f hf
+      exact ⟨this.1, this.2.2.2.1⟩
+  | advance dt =>
+    have := advanceOp_effect s h dt
+    exact ⟨this.1, this.2.2.2.2⟩
+  | read k off len => exact ⟨h, fun _ => rfl⟩
+  | list si => exact ⟨h, fun _ => rfl⟩
+
+theorem wf_run (s : Server) (h : WF s) (ops : List Op) (ok : ∀ op ∈ ops, OpOk op) : WF (run s ops) := by
+  induction ops generalizing s with
+  | nil => exact h
+  | cons op rest ih =>
+    simp only [run, List.foldl_cons]
+    exact ih _ (step_refines s h op (ok op List.mem_cons_self)).1
+      (fun o ho => ok o (List.mem_cons_of_mem _ ho))
+
+theorem read_refines (s : Server) (h : WF s) (k : Key) (off len : Nat) :
+    readOp s k off len = specRead (absShare s k) off len := by
+  simp only [readOp, absShare]
+  cases hf : getK k s.final with
+  | none =>
+    simp only
+    cases getK k s.incoming <;> simp [specRead]
+  | some f =>
+    have hw := h.fin k f hf
+    have hlen := hw.len
+    simp only [openLeaseOffset_wf f hw, specRead, Option.some.injEq]
+    rw [readShareData_eq]
+    apply List.ext_getElem?; intro i
+    simp only [getElem?_pread, shareLength]
+    by_cases hi : i < len
+    · by_cases h2 : off + i < f.length - 12 - numLeases f * 72
+      · have : i < min len (f.length - numLeases f * 72 - (12 + off)) := by omega
+        simp [hi, h2, this, Nat.add_assoc]
+      · have : ¬ i < min len (f.length - numLeases f * 72 - (12 + off)) := by omega
+        simp [hi, h2, this]
+    · have : ¬ i < min len (f.length - numLeases f * 72 - (12 + off)) := by omega
+      simp [hi, this]
+
 end Tahoe.Storage.Imm
